@@ -125,7 +125,7 @@ def build(tool, args, stdin_text=None):
         reset_globals()
 
 
-def run_subprocess(tool, args, stdin_text=None, cwd=None, hashseed='0', timeout=120, extra_env=None):
+def run_subprocess(tool, args, stdin_text=None, cwd=None, hashseed='0', timeout=120, extra_env=None, stdout_path=None):
     """Real process: python -c 'from <module> import main; main()'."""
     repo = os.environ.get('VERIF_REPO', '/repo')
     env = {k: v for k, v in os.environ.items() if k not in ('PYTHONHASHSEED',)}
@@ -135,7 +135,15 @@ def run_subprocess(tool, args, stdin_text=None, cwd=None, hashseed='0', timeout=
     if extra_env:
         env.update(extra_env)
     code = "import sys; sys.argv[0]={!r}; from {} import main; main()".format(tool, TOOLS[tool])
-    p = subprocess.run([sys.executable] + (['-O'] if sys.flags.optimize else []) + ['-c', code] + [str(a) for a in args],
-                       input=(stdin_text if stdin_text is not None else ''), encoding='utf-8', errors='replace',
-                       stdout=subprocess.PIPE, stderr=subprocess.PIPE, cwd=cwd or repo, env=env, timeout=timeout)
-    return Result(p.returncode & 0xFF, p.stdout, p.stderr, None)
+    sink = open(stdout_path, 'w') if stdout_path else None       # e.g. /dev/full: every write fails with ENOSPC
+    try:
+        p = subprocess.run([sys.executable] + (['-O'] if sys.flags.optimize else []) + ['-c', code] + [str(a) for a in args],
+                           input=(stdin_text if stdin_text is not None else ''), encoding='utf-8', errors='replace',
+                           stdout=sink if sink is not None else subprocess.PIPE, stderr=subprocess.PIPE, cwd=cwd or repo, env=env, timeout=timeout)
+    finally:
+        if sink is not None:
+            try:
+                sink.close()
+            except OSError:
+                pass
+    return Result(p.returncode & 0xFF, p.stdout or '', p.stderr, None)
